@@ -123,6 +123,14 @@ class Evaluator:
             if base is not None and base["k"] == "CXXThisExpr":
                 return n["name"]
             if n.get("arrow"):
+                try:
+                    pv_ = self.as_ptr(self.ev(bn))
+                except Unknown:
+                    pv_ = None
+                if isinstance(pv_, tuple) and pv_[0] == "ptr":
+                    return "%s[%d].%s" % (pv_[1], pv_[2], n["name"])       # p->f with p an element pointer
+                if isinstance(pv_, tuple) and pv_[0] == "ref":
+                    return "%s.%s" % (pv_[1], n["name"])
                 if getattr(self, "heap_mode", False):
                     try:
                         v = self.ev(bn)
@@ -210,8 +218,8 @@ class Evaluator:
                 return self.env[key]
             if n.get("dk") in ("Function", "CXXMethod"):
                 return ("fn", n.get("qn") or key)      # a function designator (decays to a function pointer)
-            if (self.tinfo(n.get("ct")) or {}).get("k") == "array" and not getattr(self, "heap_mode", False):
-                return ("ptr", key, 0)                  # a local array: its cells are env[name[i]]
+            if (self.tinfo(n.get("ct")) or {}).get("k") == "array":
+                return ("ptr", key, 0)                  # an array variable: its cells are env[name[i]]
             raise Unknown(key)
         if k in ("MemberExpr", "ArraySubscriptExpr"):
             key = self.lkey(n)
